@@ -5,6 +5,7 @@
 From Coq Require Import String Ascii NArith List Bool.
 From Pi2 Require Import ML.Syntax ML.Subst ML.Machine PTerm.Model.
 From Pi2 Require Import K.Kore K.Exec K.KoreProofs K.ExecProofs K.Accept K.Bridge.
+From Pi2 Require Import K.GenPrims Gen.KoreConv K.GenKoreAgree.
 Import ListNotations.
 Open Scope string_scope.
 Open Scope list_scope.
@@ -335,4 +336,84 @@ Print Assumptions C20_generated_claims.
 
 Example C20_generated_claims_nonvacuous :
   exists m, gen_module guards_sound Sig1 axs1 (kf ka) good_items = Some m /\ List.length (m_claims m) = 2.
+Proof. eexists. split; [vm_compute; reflexivity | reflexivity]. Qed.
+
+
+(** ** 6. The same properties of the functions TRANSLATED from the current Python source.
+    coq/Gen/KoreConv.v is regenerated on every run by translators/kore_conv.py (statement by statement,
+    fail closed) from ConvertionScope.resolve_metavar / lookup_metavar / resolve_sort_param_metavar,
+    KSort/KSymbol.aml_symbol, KSymbol.app, LanguageSemantics._convert_sort / _convert_pattern /
+    convert_substitutions, ProofExp.add_axiom / add_axioms / add_assumptions, ExecutionProofExp.
+    current_configuration / collect_functional_axioms / add_assumptions_for_rewrite_step / rewrite_event /
+    from_proof_hints.  K/GenKoreAgree.v proves the generated functions EQUAL to the model (scopes through
+    [absg]: the model's name lists as the Python dicts; recursion of _convert_pattern on fuel, any fuel
+    >= the height of the term; pyk's typing of binders [gk_typed]). *)
+Theorem C20_source_agreement :
+  (forall S fuel k, gheight k <= fuel -> gk_typed k = true -> forall sc,
+      gen__convert_pattern fuel S (absg sc) k = lift (convert (gs_sig S) sc (to_kore k)))
+  /\ (forall S fuel t o sc, sem_cached_scope S o = Some (absg sc) ->
+        Forall (fun xk => gheight (snd xk) <= fuel /\ gk_typed (snd xk) = true) t ->
+        gen_convert_substitutions fuel S t o
+        = match convert_substs (gs_sig S) sc (tk_subst t) with
+          | Some (sc', d) => Some (absg sc', dict_of d) | None => None end)
+  /\ (forall S st rule d,
+        gen_rewrite_event S (absx st) rule d
+        = option_map (fun st' => (absx st', (r_pat rule, d))) (rewrite_event Pi2.K.Exec.guards_sound S st (r_pat rule) d))
+  /\ (forall S hs, gen_from_proof_hints hs S = from_hints Pi2.K.Exec.guards_sound S hs).
+Proof.
+  split; [exact agree_convert_pattern|]. split; [exact agree_convert_substitutions|].
+  split; [exact agree_rewrite_event | exact agree_from_proof_hints].
+Qed.
+Print Assumptions C20_source_agreement.
+
+Theorem C20_source_scope_injective : forall S fuel k g p,
+  gheight k <= fuel -> gk_typed k = true ->
+  gen__convert_pattern fuel S gscope0 k = Some (g, p) ->
+  (forall x s, In (x, s) (kevars (to_kore k)) -> exists i, sd_get x (g_metavars g) = Some (PMeta i))
+  /\ (forall x y q, sd_get x (g_metavars g) = Some q -> sd_get y (g_metavars g) = Some q -> x = y)
+  /\ (forall a b q, sd_get a (g_sortparams g) = Some q -> sd_get b (g_sortparams g) = Some q -> a = b)
+  /\ ((nat_len (g_metavars g) <= 100)%N ->
+      forall x a q, sd_get x (g_metavars g) = Some q -> sd_get a (g_sortparams g) = Some q -> False).
+Proof. exact source_scope_injective. Qed.
+Print Assumptions C20_source_scope_injective.
+
+Theorem C20_source_conv_commutes_subst : forall S fuel fuel2 k g1 p o t g2 d,
+  gheight k <= fuel -> gk_typed k = true ->
+  Forall (fun xk => gheight (snd xk) <= fuel /\ gk_typed (snd xk) = true) t ->
+  NoDup (map fst t) ->
+  gen__convert_pattern fuel S gscope0 k = Some (g1, p) ->
+  sem_cached_scope S o = Some g1 ->
+  gen_convert_substitutions fuel S t o = Some (g2, d) ->
+  (nat_len (g_metavars g2) <= 100)%N ->
+  bound_ok (map fst t) (to_kore k) = true ->
+  gheight (gsubst t k) <= fuel2 ->
+  gen__convert_pattern fuel2 S g2 (gsubst t k) = Some (g2, inst d p).
+Proof. exact source_conv_commutes_subst. Qed.
+Print Assumptions C20_source_conv_commutes_subst.
+
+Theorem C20_source_trace_claims : forall S hs m,
+  gen_from_proof_hints hs S = Some m -> m_claims m = map inst_rule hs /\ chained hs.
+Proof. intros S hs m H. rewrite agree_from_proof_hints in H. eapply trace_claims_thm; eauto. Qed.
+Print Assumptions C20_source_trace_claims.
+
+Theorem C20_source_trace_mismatch_refused : forall S hs, ~ chained hs -> gen_from_proof_hints hs S = None.
+Proof. intros S hs H. rewrite agree_from_proof_hints. apply mismatch_refused_thm. exact H. Qed.
+Print Assumptions C20_source_trace_mismatch_refused.
+
+Theorem C20_source_trace_chained_accepted : forall S hs,
+  chained hs ->
+  Forall (fun h => r_kind (h_rule h) = RRewrite /\ functional_axioms S (h_subst h) <> None) hs ->
+  exists m, gen_from_proof_hints hs S = Some m.
+Proof. intros S hs H1 H2. rewrite agree_from_proof_hints. apply chained_accepted_thm; assumption. Qed.
+Print Assumptions C20_source_trace_chained_accepted.
+
+(** the axiom list of the module built by the translated code has no duplicate (ProofExp.add_axiom's
+    de-duplication; the 256 Load slots) as soon as it starts without one *)
+Theorem C20_source_axioms_nodup : forall S x rule d x' pf,
+  NoDup (x_axioms x) -> gen_rewrite_event S x rule d = Some (x', pf) -> NoDup (x_axioms x').
+Proof. exact source_axioms_nodup. Qed.
+Print Assumptions C20_source_axioms_nodup.
+
+Example C20_source_nonvacuous :
+  exists m, gen_from_proof_hints (hints_of (kf ka) good_items) Sig1 = Some m /\ List.length (m_claims m) = 2.
 Proof. eexists. split; [vm_compute; reflexivity | reflexivity]. Qed.
